@@ -445,6 +445,12 @@ package carddav
 //@   |   || (paoCalls == old(paoCalls) && mutations == old(mutations) && err != nil && local4xx(err))
 //@   ensures U2: err != nil ==> (beErr(err) || local4xx(err)) && wstatus(w) == 0
 //@   ensures U3: err == nil ==> wstatus(w) == 201
+//@   -- C10: the backend is handed exactly what the decoder made of the request body
+//@   ensures W0: paoCalls == old(paoCalls) + 1 ==> paoCard == vcardDecoded(vcardDecoderOf(r.Body))
+//@   -- C10: the answer carries the backend's path, entity tag and modification time in the form the client reads back
+//@   ensures W1: err == nil && paoRes != nil && hasPrefix(paoRes.Path, "/") && !hasPrefix(paoRes.Path, "//") ==> urlParseOk(hget(hv, respHeader(w), "Location")) && urlParsePath(hget(hv, respHeader(w), "Location")) == paoRes.Path
+//@   ensures W2: err == nil && paoRes != nil && paoRes.ETag != "" ==> hget(hv, respHeader(w), "ETag") == quote(paoRes.ETag)
+//@   ensures W3: err == nil && paoRes != nil && !isZeroTime(paoRes.ModTime) ==> hget(hv, respHeader(w), "Last-Modified") == timeFormat(http.TimeFormat, ns(paoRes.ModTime))
 //@   -- C13: an invalid or foreign Content-Type is refused with 400 before anything reaches the backend
 //@   ensures U4: old(mimeErr(hdr(r, "Content-Type")) != nil || mimeType(hdr(r, "Content-Type")) != "text/vcard") ==> httpCode(err) == 400 && mutations == old(mutations) && paoCalls == old(paoCalls)
 //@ func carddav.(*backend).HeadGet(b, w, r) (err)
